@@ -1,6 +1,8 @@
 // C13: XTS mode matches IEEE 1619 and inverts.
 // Grid: AES-128/256 key pairs x sector boundary values x every multiple of 16 in
 // 16..4096 x {separate, in-place} x value alphabet; invalid lengths must panic.
+// Hardening pass (grid part only): caller-owned key and source buffers, dirty destinations,
+// long-lived shared Ciphers, Decrypt of model ciphertexts, long data units up to 4 MiB (16 MiB).
 package main
 
 import (
@@ -124,7 +126,10 @@ func run(c *vf.Ctx) {
 			}
 		}
 	}
-	c.Rule("full grid keysize{32,64} x sector{0,1,2^32-1,2^32,2^63,2^64-1,seed} x len{16..4096 step 16} x {separate,in-place} x value classes; " +
+	c.Rule("full grid keysize{32,64} x sector{0,1,2^32-1,2^32,2^63,2^64-1,seed} x len{16..4096 step 16} x {Encrypt separate into a dirty dst, Encrypt in place, Decrypt of the MODEL's ciphertext separate into a dirty dst, Decrypt in place, Encrypt and Decrypt into a longer dst} x value classes, " +
+		"half of the calls on a fresh Cipher whose key buffer the caller has wiped, half on a long-lived Cipher (one per key class, key wiped, shared by all grid points and worker goroutines); source buffers must be unchanged; " +
+		"long data units 2^k+{-16,0,16}, k=16..22 (thorough ..23 and 2^24-32, 2^24-16) x 4 (key size, key class, sector) combinations x {Encrypt separate, Decrypt in place, Encrypt in place}; " +
+		"invalid lengths 1..80 and 2^k+{-1,1,8,15,17} (k=8..22) and short dst must panic without writing, after which the same Cipher still works; " +
 		"non-trivial = distinct (keysize,sector,blocks) with blocks>=2 (tweak doubling exercised); oracle = big-int GF(2^128) XTS model over crypto/aes")
 	c.Assume("crypto/aes is a correct AES; values outside the alphabet are not enumerated")
 	sectors := []uint64{0, 1, 1<<32 - 1, 1 << 32, 1 << 63, 1<<64 - 1, 0x3333333333}
@@ -150,52 +155,118 @@ func run(c *vf.Ctx) {
 		}
 	}
 	nv := c.V()
+	// Long-lived Ciphers, one per (key size, key class), created once from a PRIVATE copy of the key
+	// that is wiped as soon as NewCipher has returned, and then used by every grid point (from all
+	// worker goroutines: a Cipher is documented as safe for concurrent use) — each grid point thus
+	// sees a Cipher with an arbitrary history of earlier sectors and lengths behind it.
+	sharedCi := map[int][]*xts.Cipher{}
+	for _, ks := range []int{32, 64} {
+		for _, key := range c.ValueClasses("xts-key", ks, nv) {
+			kc := append([]byte(nil), key...)
+			ci, err := xts.NewCipher(aes.NewCipher, kc)
+			for j := range kc {
+				kc[j] ^= 0xFF
+			}
+			if err != nil {
+				c.Violation("NewCipher rejects valid key", fmt.Sprint(ks, err))
+				return
+			}
+			sharedCi[ks] = append(sharedCi[ks], ci)
+		}
+	}
+	dirty := func(n int, v byte) []byte { // a destination that still holds old data
+		b := make([]byte, n)
+		for j := range b {
+			b[j] = v ^ byte(j)
+		}
+		return b
+	}
 	c.ParallelFor(len(grid), func(i int) {
 		g := grid[i]
 		keys := c.ValueClasses("xts-key", g.ks, nv)
 		// the carry of the tweak doubling depends on the tweak value: vary key classes,
 		// keep the data classes small for long inputs
 		for ki, key := range keys {
-			ci, err := xts.NewCipher(aes.NewCipher, key)
+			kc := append([]byte(nil), key...)
+			ci, err := xts.NewCipher(aes.NewCipher, kc)
 			if err != nil {
 				c.Violation("NewCipher rejects valid key", fmt.Sprint(g.ks, err))
 				return
 			}
+			if !bytes.Equal(kc, key) {
+				c.Violation("NewCipher modifies the caller's key", map[string]any{"keysize": g.ks, "keyclass": ki})
+			}
+			for j := range kc {
+				kc[j] ^= 0xFF // the caller wipes its key buffer
+			}
+			old := sharedCi[g.ks][ki] // same key, long history
 			datas := c.ValueClasses("xts-data", g.n, 1)
 			if g.n > 512 {
 				datas = datas[3:] // ascending + seeded only
 			}
 			for di, data := range datas {
+				det := map[string]any{"keysize": g.ks, "sector": g.sec, "len": g.n, "keyclass": ki, "dataclass": di}
 				want := xtsref.Crypt(key, data, g.sec, false)
-				got := make([]byte, g.n)
-				ci.Encrypt(got, data, g.sec)
+				src := append([]byte(nil), data...)
+				got := dirty(g.n, 0xC3)
+				pan, val, _ := vf.Protect(func() { ci.Encrypt(got, src, g.sec) })
+				if pan {
+					det["panic"] = fmt.Sprint(val)
+					c.Violation("Encrypt/Decrypt panics on valid arguments", det)
+					continue
+				}
 				c.Eval(1)
 				if !bytes.Equal(got, want) {
-					c.Violation("Encrypt != IEEE 1619 model", map[string]any{"keysize": g.ks, "sector": g.sec, "len": g.n, "keyclass": ki, "dataclass": di})
+					c.Violation("Encrypt != IEEE 1619 model", det)
 				}
-				// in place
-				buf := append([]byte(nil), data...)
-				ci.Encrypt(buf, buf, g.sec)
+				if !bytes.Equal(src, data) {
+					c.Violation("Encrypt modifies the plaintext buffer", det)
+				}
+				// in place, on the long-lived Cipher (odd key classes: unaligned buffer)
+				buf := append(make([]byte, ki%2, g.n+1), data...)[ki%2:]
+				old.Encrypt(buf, buf, g.sec)
+				c.Eval(1)
 				if !bytes.Equal(buf, want) {
-					c.Violation("in-place Encrypt differs", map[string]any{"keysize": g.ks, "sector": g.sec, "len": g.n})
+					c.Violation("in-place Encrypt differs", det)
 				}
-				back := make([]byte, g.n)
-				ci.Decrypt(back, got, g.sec)
+				// Decrypt of the MODEL's ciphertext
+				csrc := append([]byte(nil), want...)
+				back := dirty(g.n, 0x3C)
+				old.Decrypt(back, csrc, g.sec)
+				c.Eval(1)
 				if !bytes.Equal(back, data) {
-					c.Violation("Decrypt(Encrypt(x)) != x", map[string]any{"keysize": g.ks, "sector": g.sec, "len": g.n})
+					c.Violation("Decrypt of an IEEE 1619 ciphertext != plaintext", det)
+				}
+				if !bytes.Equal(csrc, want) {
+					c.Violation("Decrypt modifies the ciphertext buffer", det)
 				}
 				ci.Decrypt(buf, buf, g.sec)
+				c.Eval(1)
 				if !bytes.Equal(buf, data) {
-					c.Violation("in-place Decrypt differs", map[string]any{"keysize": g.ks, "sector": g.sec, "len": g.n})
+					c.Violation("in-place Decrypt differs", det)
 				}
 				// dst longer than src: only len(src) bytes written
 				big := make([]byte, g.n+16)
 				for j := range big {
 					big[j] = 0xA5
 				}
-				ci.Encrypt(big, data, g.sec)
+				old.Encrypt(big, src, g.sec)
+				c.Eval(1)
 				if !bytes.Equal(big[:g.n], want) || !bytes.Equal(big[g.n:], bytes.Repeat([]byte{0xA5}, 16)) {
-					c.Violation("Encrypt into longer dst wrong", map[string]any{"keysize": g.ks, "sector": g.sec, "len": g.n})
+					c.Violation("Encrypt into longer dst wrong", det)
+				}
+				for j := range big {
+					big[j] = 0x5A
+				}
+				pan, val, _ = vf.Protect(func() { ci.Decrypt(big, csrc, g.sec) })
+				c.Eval(1)
+				if pan {
+					det["panic"] = fmt.Sprint(val)
+					c.Violation("Encrypt/Decrypt panics on valid arguments", det)
+					continue
+				}
+				if !bytes.Equal(big[:g.n], data) || !bytes.Equal(big[g.n:], bytes.Repeat([]byte{0x5A}, 16)) {
+					c.Violation("Decrypt into longer dst wrong", det)
 				}
 			}
 		}
@@ -207,6 +278,76 @@ func run(c *vf.Ctx) {
 			c.Sample(map[string]any{"keysize": g.ks, "sector": g.sec, "len": g.n, "key_classes": len(keys)})
 		}
 	})
+	// long data units: lengths 2^k+{-16,0,16} for k=16..22 (the documented limit is < 2^24 bytes; thorough
+	// goes to 2^24-16). Without ciphertext stealing block i depends only on tweak*x^i and block i, so
+	// the model's ciphertext of the longest unit contains the ciphertext of every shorter one as a prefix.
+	{
+		var longs []int
+		maxK := 22
+		if c.Thorough {
+			maxK = 23
+		}
+		for k := 16; k <= maxK; k++ {
+			longs = append(longs, 1<<uint(k)-16, 1<<uint(k), 1<<uint(k)+16)
+		}
+		if c.Thorough {
+			longs = append(longs, 1<<24-32, 1<<24-16)
+		}
+		longMax := longs[len(longs)-1]
+		data := make([]byte, longMax)
+		for j := range data {
+			data[j] = byte(j*7 + j>>12)
+		}
+		type lt struct {
+			ks, ki int
+			sec    uint64
+		}
+		last := len(sharedCi[32]) - 1 // the seeded key class
+		lts := []lt{{32, 1, 0}, {32, last, 1<<64 - 1}, {64, 2, 1}, {64, last, 0x3333333333}}
+		wants := make([][]byte, len(lts))
+		c.ParallelFor(len(lts), func(i int) {
+			wants[i] = xtsref.Crypt(c.ValueClasses("xts-key", lts[i].ks, nv)[lts[i].ki], data, lts[i].sec, false)
+		})
+		c.ParallelFor(len(lts)*len(longs), func(i int) {
+			t, n := lts[i/len(longs)], longs[i%len(longs)]
+			want := wants[i/len(longs)][:n]
+			ci := sharedCi[t.ks][t.ki]
+			det := map[string]any{"keysize": t.ks, "sector": t.sec, "len": n, "keyclass": t.ki, "long": true}
+			got := dirty(n+16, 0xC3)
+			guard := append([]byte(nil), got[n:]...)
+			pan, val, _ := vf.Protect(func() { ci.Encrypt(got, data[:n], t.sec) })
+			c.Eval(1)
+			if pan {
+				det["panic"] = fmt.Sprint(val)
+				c.Violation("Encrypt panics on a long data unit (< 2^24 bytes)", det)
+				return
+			}
+			if !bytes.Equal(got[:n], want) {
+				k := 0
+				for got[k] == want[k] {
+					k++
+				}
+				det["first_diff_block"] = k / 16
+				c.Violation("Encrypt != IEEE 1619 model on a long data unit (>= 64 KiB)", det)
+			}
+			if !bytes.Equal(got[n:], guard) {
+				c.Violation("Encrypt into longer dst wrong", det)
+			}
+			// decrypt the model's ciphertext in place
+			copy(got, want)
+			pan, _, _ = vf.Protect(func() { ci.Decrypt(got[:n], got[:n], t.sec) })
+			c.Eval(1)
+			if pan || !bytes.Equal(got[:n], data[:n]) {
+				c.Violation("in-place Decrypt of an IEEE 1619 ciphertext != plaintext on a long data unit (>= 64 KiB)", det)
+			}
+			pan, _, _ = vf.Protect(func() { ci.Encrypt(got[:n], got[:n], t.sec) })
+			c.Eval(1)
+			if pan || !bytes.Equal(got[:n], want) {
+				c.Violation("in-place Encrypt differs on a long data unit (>= 64 KiB)", det)
+			}
+			c.Nontrivial(fmt.Sprintf("long/%d/%d/%d", t.ks, t.sec, n/16))
+		})
+	}
 	// the tweak doubling itself on boundary values: the tweak of a data unit is AES_k2(sector),
 	// so carry patterns such as a 32- or 64-bit word of all ones with a carry coming in are
 	// reached through Encrypt only for about one sector in 10^8; enumerate them directly
@@ -266,29 +407,56 @@ func run(c *vf.Ctx) {
 		}
 		c.Set("mul2_start_patterns", len(pats))
 	}
-	// argument rules: lengths that are not a multiple of 16 and short dst must panic; zero length is a no-op or panic but never writes
+	// argument rules: lengths that are not a multiple of 16 and short dst must panic (before anything is written);
+	// afterwards the same Cipher still works
 	key := c.Bytes("k", 0, 32)
 	ci, _ := xts.NewCipher(aes.NewCipher, key)
+	var badLens []int
 	for n := 1; n <= 80; n++ {
+		badLens = append(badLens, n)
+	}
+	for k := 8; k <= 22; k += 2 {
+		badLens = append(badLens, 1<<uint(k)-1, 1<<uint(k)+1, 1<<uint(k)+8, 1<<uint(k)+15, 1<<uint(k)+17)
+	}
+	for _, n := range badLens {
 		if n%16 == 0 {
 			continue
 		}
 		c.Eval(2)
 		src := make([]byte, n)
-		if !vf.Panics(func() { ci.Encrypt(make([]byte, n), src, 0) }) {
+		dst := bytes.Repeat([]byte{0xA5}, n)
+		if !vf.Panics(func() { ci.Encrypt(dst, src, 0) }) {
 			c.Violation("Encrypt accepts length not multiple of 16", n)
 		}
-		if !vf.Panics(func() { ci.Decrypt(make([]byte, n), src, 0) }) {
+		if !vf.Panics(func() { ci.Decrypt(dst, src, 0) }) {
 			c.Violation("Decrypt accepts length not multiple of 16", n)
 		}
+		if !bytes.Equal(dst, bytes.Repeat([]byte{0xA5}, n)) {
+			c.Violation("Encrypt/Decrypt writes to dst before rejecting an invalid length", n)
+		}
 	}
-	for _, n := range []int{16, 32, 512} {
+	for _, n := range []int{16, 32, 512, 4096, 65536} {
 		c.Eval(2)
 		if !vf.Panics(func() { ci.Encrypt(make([]byte, n-1), make([]byte, n), 0) }) {
 			c.Violation("Encrypt accepts short dst", n)
 		}
 		if !vf.Panics(func() { ci.Decrypt(make([]byte, n-1), make([]byte, n), 0) }) {
 			c.Violation("Decrypt accepts short dst", n)
+		}
+		if !vf.Panics(func() { ci.Encrypt(make([]byte, n-16), make([]byte, n), 0) }) {
+			c.Violation("Encrypt accepts short dst", n)
+		}
+	}
+	{
+		// non-initial state: the Cipher that has just rejected all of the above
+		data := c.ValueClasses("xts-data", 512, 1)[4]
+		want := xtsref.Crypt(key, data, 77, false)
+		got := make([]byte, 512)
+		back := make([]byte, 512)
+		pan, _, _ := vf.Protect(func() { ci.Encrypt(got, data, 77); ci.Decrypt(back, want, 77) })
+		c.Eval(2)
+		if pan || !bytes.Equal(got, want) || !bytes.Equal(back, data) {
+			c.Violation("Encrypt/Decrypt wrong on a Cipher that has rejected invalid arguments before", nil)
 		}
 	}
 	// wrong key sizes rejected
